@@ -63,12 +63,14 @@ Section Types.
 
   Record cfg := mkCfg {
     c_w : list F;                       (* Vary.weight *)
-    c_lim : list (option (F * F));      (* Vary.limits (knob units) *)
+    c_lim : list (option (option F * option F));  (* Vary.limits (knob units): None, or a pair whose
+                                           sides may be None (one-sided limits) *)
     c_step : list F;                    (* steps_for_jacobian (knob units) *)
     c_maxstep : list (option F);        (* Vary.max_step (knob units) *)
     c_vtag : list N; c_vname : list N;
     c_tval : list F; c_tol : list F; c_tw : list F; c_ttag : list N;
-    c_nmax : nat; c_assert : bool; c_restore : bool }.
+    c_nmax : nat; c_assert : bool; c_restore : bool;
+    c_check : bool }.                   (* Optimize(check_limits=...) *)
 
   Record row := mkRow {
     r_knobs : list F; r_va : list bool; r_ta : list bool; r_pen : F;
@@ -116,7 +118,7 @@ Arguments bind {F A B}.
 Arguments mkRow {F}. Arguments mkCfg {F}. Arguments mkState {F}.
 Arguments c_w {F}. Arguments c_lim {F}. Arguments c_step {F}. Arguments c_maxstep {F}. Arguments c_vtag {F}.
 Arguments c_vname {F}. Arguments c_tval {F}. Arguments c_tol {F}. Arguments c_tw {F}. Arguments c_ttag {F}.
-Arguments c_nmax {F}. Arguments c_assert {F}. Arguments c_restore {F}.
+Arguments c_nmax {F}. Arguments c_assert {F}. Arguments c_restore {F}. Arguments c_check {F}.
 Arguments r_knobs {F}. Arguments r_va {F}. Arguments r_ta {F}. Arguments r_pen {F}. Arguments r_targets {F}.
 Arguments r_tolmet {F}. Arguments r_hit {F}. Arguments r_alpha {F}. Arguments r_tag {F}.
 Arguments knobs {F}. Arguments va {F}. Arguments ta {F}. Arguments sx {F}. Arguments mfl {F}. Arguments lpwt {F}.
@@ -159,12 +161,15 @@ Section Opt.
   Definition x_to_knobs (x : list F) : list F := map2 mul x (c_w cf).
   Definition knobs_to_x (k : list F) : list F := map2 div k (c_w cf).
 
-  Definition out_of_limits (l : option (F * F)) (v : F) : bool :=
-    match l with Some (lo, hi) => ltb v lo || ltb hi v | None => false end.
+  (* "limits[0] is not None and val < limits[0]" / "limits[1] is not None and val > limits[1]" *)
+  Definition below (lo : option F) (v : F) : bool := match lo with Some a => ltb v a | None => false end.
+  Definition above (hi : option F) (v : F) : bool := match hi with Some b => ltb b v | None => false end.
+  Definition out_of_limits (l : option (option F * option F)) (v : F) : bool :=
+    match l with Some (lo, hi) => below lo v || above hi v | None => false end.
 
   (* the "Set knobs" loop of __call__: only active knobs are written, the limit
      test (check_limits) raises in the middle of the loop *)
-  Fixpoint write_knobs (chk : bool) (act : list bool) (lims : list (option (F * F)))
+  Fixpoint write_knobs (chk : bool) (act : list bool) (lims : list (option (option F * option F)))
            (kv old : list F) : list F * bool :=
     match act, lims, kv, old with
     | a :: act', l :: lims', v :: kv', o :: old' =>
@@ -194,9 +199,9 @@ Section Opt.
     | Some r => Ok (merit_out (ta s) r, set_eval s1 (all_ok (within r) (ta s)) r (within r))
     end.
 
-  (* JacobianSolver.eval *)
+  (* JacobianSolver.eval: func(x) with check_limits=None, i.e. Optimize's check_limits *)
   Definition solver_eval (x : list F) (s : state) : res (list F * F * state) :=
-    bind (merit_call x true s) (fun '(y, s') => Ok (y, pen y, s')).
+    bind (merit_call x (c_check cf) s) (fun '(y, s') => Ok (y, pen y, s')).
 
   (* get_jacobian(x, f0): forward differences, the local copy of x accumulates
      (x+h)-h; perturbed evaluations use check_limits=False *)
@@ -237,19 +242,23 @@ Section Opt.
   Definition clip_to_max_steps (xstep : list F) : list F :=
     clip_loop 0 (c_maxstep cf) (c_w cf) xstep.
 
-  (* _get_x_limits *)
-  Definition x_limits : list (F * F) :=
-    map2 (fun l w => match l with Some (lo, hi) => (div lo w, div hi w) | None => (div c_lo w, div c_hi w) end)
+  (* _get_x_limits: a side given as None becomes NaN in the numpy array, every
+     comparison with it is false: no bound on that side *)
+  Definition x_limits : list (option F * option F) :=
+    map2 (fun l w => match l with
+                     | Some (lo, hi) => (option_map (fun a => div a w) lo, option_map (fun b => div b w) hi)
+                     | None => (Some (div c_lo w), Some (div c_hi w))
+                     end)
          (c_lim cf) (c_w cf).
 
   (* the "Check limits" loop of JacobianSolver.step *)
-  Fixpoint lim_loop (x this : list F) (xl : list (F * F)) : list F * list bool :=
+  Fixpoint lim_loop (x this : list F) (xl : list (option F * option F)) : list F * list bool :=
     match x, this, xl with
     | xi :: x', ti :: t', (lo, hi) :: xl' =>
         let d := sub xi ti in
         let '(tl, hh) := lim_loop x' t' xl' in
-        if ltb d lo then (zero :: tl, true :: hh)
-        else if ltb hi d then (zero :: tl, true :: hh)
+        if below lo d then (zero :: tl, true :: hh)
+        else if above hi d then (zero :: tl, true :: hh)
         else (ti :: tl, false :: hh)
     | _, _, _ => ([], [])
     end.
@@ -386,14 +395,23 @@ Section Opt.
     | BroEvery k => negb (Nat.eqb (Nat.modulo i_step k) 0)
     end.
 
-  (* np.argmin: first index of a minimal element *)
+  (* np.argmin: the first NaN if there is one, else the first index of a minimal element *)
+  Definition isnan (x : F) : bool := negb (leb x x).
+  Fixpoint first_nan (i : nat) (l : list F) : option nat :=
+    match l with
+    | [] => None
+    | p :: l' => if isnan p then Some i else first_nan (S i) l'
+    end.
   Fixpoint argmin_from (best : nat) (bp : F) (i : nat) (l : list F) : nat :=
     match l with
     | [] => best
     | p :: l' => if ltb p bp then argmin_from i p (S i) l' else argmin_from best bp (S i) l'
     end.
   Definition argmin (l : list F) : nat :=
-    match l with [] => 0 | p :: l' => argmin_from 0 p 1 l' end.
+    match first_nan 0 l with
+    | Some i => i
+    | None => match l with [] => 0 | p :: l' => argmin_from 0 p 1 l' end
+    end.
 
   Definition set_knobs_from_x (x : list F) (s : state) : state :=
     set_knobs s (fst (write_knobs false (va s) (c_lim cf) (x_to_knobs x) (knobs s))).
@@ -454,9 +472,27 @@ Section Opt.
     let s := able true None None (a_dvn a) s in
     able false None None (a_evn a) s.
 
+  (* Optimize._clip_to_limits: active knobs outside a limit are put on it *)
+  Fixpoint clip_knobs (act : list bool) (lims : list (option (option F * option F))) (k : list F) : list F :=
+    match act, lims, k with
+    | a :: act', l :: lims', v :: k' =>
+        (if a then
+           match l with
+           | Some (lo, hi) =>
+               let v1 := match lo with Some a0 => if ltb v a0 then a0 else v | None => v end in
+               match hi with Some b0 => if ltb b0 v then b0 else v1 | None => v1 end
+           | None => v
+           end
+         else v) :: clip_knobs act' lims' k'
+    | _, _, _ => k
+    end.
+  (* "if not self.check_limits: self._clip_to_limits()" *)
+  Definition pre_clip (s : state) : state :=
+    if c_check cf then s else set_knobs s (clip_knobs (va s) (c_lim cf) (knobs s)).
+
   (* Optimize.step *)
   Definition opt_step (fuel n : nat) (take_best : bool) (a : step_args) (b : bro_mode) (s : state) : res state :=
-    bind (step_core fuel n take_best b (pre_flags a s)) (fun s' => Ok (post_flags a s')).
+    bind (step_core fuel n take_best b (pre_flags a (pre_clip s))) (fun s' => Ok (post_flags a s')).
 
   (* Optimize.solve *)
   Definition solve (fuel : nat) (n : option nat) (take_best : bool) (b : bro_mode) (s : state) : res state :=
@@ -503,7 +539,10 @@ Section Opt.
   (* Optimize.__init__: the object before its first add_point_to_log() *)
   Definition pre_init (k0 : list F) (va0 : list bool) : state :=
     mkState k0 va0 (map (fun _ => true) (c_tval cf)) None [] false [] [] zero (-2)%Z None [] 0.
-  Definition init (k0 : list F) (va0 : list bool) : res state := add_point 0%N (pre_init k0 va0).
+  Definition init (k0 : list F) (va0 : list bool) : res state :=
+    if c_check cf then add_point 0%N (pre_init k0 va0)
+    else bind (add_point 0%N (pre_init k0 va0)) (fun s1 =>
+         add_point 0%N (set_knobs s1 (clip_knobs (va s1) (c_lim cf) (knobs s1)))).
 
 End Opt.
 
